@@ -77,6 +77,11 @@ pub struct World {
     pub prefix: String,
     pub names: Names,
     pub instantiated: bool,
+    /// the treasury contract (its address is the principal named "treasury")
+    pub tstore: MemStore,
+    pub t_inst: bool,
+    /// address of the contract whose messages are being dispatched
+    pub cur: String,
 }
 
 #[derive(Clone, Debug, Default)]
@@ -141,6 +146,9 @@ impl World {
             prefix: prefix.to_string(),
             names,
             instantiated: false,
+            tstore: MemStore::default(),
+            t_inst: false,
+            cur: String::new(),
         }
     }
 
@@ -260,6 +268,7 @@ impl World {
         out: &mut TxOut,
     ) -> Result<(), (String, bool)> {
         let contract = self.contract.clone();
+        self.cur = contract.clone();
         let mut coins: Vec<Coin> = vec![];
         for (d, x) in funds {
             self.debit(sender, d, *x).map_err(|e| (e, false))?;
@@ -286,6 +295,7 @@ impl World {
     }
 
     pub fn tx_sudo(&mut self, msg: &Value) -> TxOut {
+        self.cur = self.contract.clone();
         let snap = self.clone();
         self.tx_index += 1;
         let mut out = TxOut::default();
@@ -319,6 +329,7 @@ impl World {
     }
 
     pub fn tx_instantiate(&mut self, sender: &str, msg: &Value) -> TxOut {
+        self.cur = self.contract.clone();
         let snap = self.clone();
         self.tx_index += 1;
         let mut out = TxOut::default();
@@ -358,6 +369,7 @@ impl World {
     }
 
     pub fn tx_migrate(&mut self, msg: &Value) -> TxOut {
+        self.cur = self.contract.clone();
         let snap = self.clone();
         self.tx_index += 1;
         let mut out = TxOut::default();
@@ -459,13 +471,13 @@ impl World {
         ibc_count: &mut usize,
         out: &mut TxOut,
     ) -> Result<Option<Vec<u8>>, String> {
-        let contract = self.contract.clone();
+        let contract = self.cur.clone();
         match msg {
             CosmosMsg::Bank(BankMsg::Send { to_address, amount }) => {
                 for c in amount {
                     self.debit(&contract, &c.denom, c.amount.u128())?;
                     self.credit(to_address, &c.denom, c.amount.u128());
-                    out.msgs.push(json!({"k":"send","via":"bank","from":"contract","to":self.names.nm(to_address),
+                    out.msgs.push(json!({"k":"send","via":"bank","from":self.names.nm(&contract),"to":self.names.nm(to_address),
                         "den": self.names.nm(&c.denom), "amt": num(c.amount.u128())}));
                 }
                 Ok(None)
@@ -485,7 +497,7 @@ impl World {
         ibc_count: &mut usize,
         out: &mut TxOut,
     ) -> Result<Option<Vec<u8>>, String> {
-        let contract = self.contract.clone();
+        let contract = self.cur.clone();
         let fs = pb::parse(bytes)?;
         match url {
             "/cosmos.bank.v1beta1.MsgSend" => {
@@ -660,8 +672,144 @@ impl World {
                     "amt":num(x),"from":self.names.nm(&from_eff),"canon":canon}));
                 Ok(None)
             }
+            "/osmosis.poolmanager.v1beta1.MsgSwapExactAmountIn" | "/osmosis.poolmanager.v1beta1.MsgSwapExactAmountOut" => {
+                let is_in = url.ends_with("In");
+                pb::only_tags(&fs, &[1, 2, 3, 4])?;
+                let sender = pb::get_str(&fs, 1)?;
+                if sender != contract {
+                    return Err("swap: signer is not the contract".into());
+                }
+                let mut route = vec![];
+                let mut enc = pb::Enc::new();
+                enc.string(1, &sender);
+                for rb in pb::get_all_bytes(&fs, 2)? {
+                    let rf = pb::parse(&rb)?;
+                    pb::only_tags(&rf, &[1, 2])?;
+                    let pool = pb::get_u64(&rf, 1)?;
+                    let den = pb::get_str(&rf, 2)?;
+                    enc.msg(2, &pb::Enc::new().uint(1, pool).string(2, &den).done());
+                    route.push(json!([pool, den]));
+                }
+                let (coin_tag, lim_tag) = if is_in { (3, 4) } else { (4, 3) };
+                let coin = pb::parse_coin(&pb::get_bytes(&fs, coin_tag)?)?;
+                let limit = pb::get_str(&fs, lim_tag)?;
+                if is_in {
+                    enc.msg(3, &pb::enc_coin(&coin)).string(4, &limit);
+                } else {
+                    enc.string(3, &limit).msg(4, &pb::enc_coin(&coin));
+                }
+                let canon = enc.done() == bytes;
+                out.msgs.push(json!({"k": if is_in {"swap_in"} else {"swap_out"}, "sender": self.names.nm(&sender), "route": route,
+                    "den": coin.denom, "amt": num(u128_of(&coin.amount)?), "limit": num(u128_of(&limit)?), "canon": canon}));
+                Ok(None)
+            }
             other => Err(format!("unknown type url {other}")),
         }
+    }
+
+    // ---------------------------------------------------------------- the treasury contract
+    fn with_tdeps_mut<T>(&mut self, f: impl FnOnce(DepsMut, Env) -> T) -> Result<T, String> {
+        let api = ChainApi { prefix: self.prefix.clone() };
+        let q = MockQuerier::default();
+        let mut env = self.env();
+        env.contract.address = Addr::unchecked(self.names.ad("treasury"));
+        let store = &mut self.tstore;
+        let r = catch_unwind(AssertUnwindSafe(|| {
+            let deps = DepsMut { storage: store, api: &api, querier: QuerierWrapper::new(&q) };
+            f(deps, env)
+        }));
+        r.map_err(|e| {
+            if let Some(s) = e.downcast_ref::<String>() {
+                s.clone()
+            } else if let Some(s) = e.downcast_ref::<&str>() {
+                s.to_string()
+            } else {
+                "panic".to_string()
+            }
+        })
+    }
+
+    /// kind: "instantiate" | "execute" | "migrate"
+    pub fn tx_treasury(&mut self, kind: &str, sender: &str, msg: &Value) -> TxOut {
+        let snap = self.clone();
+        self.tx_index += 1;
+        self.cur = self.names.ad("treasury");
+        let mut out = TxOut::default();
+        let text = msg.to_string();
+        let info = MessageInfo { sender: Addr::unchecked(sender), funds: vec![] };
+        let r: Result<Result<Response, String>, String> = match kind {
+            "instantiate" => match from_json::<treasury::msg::InstantiateMsg>(text.as_bytes()) {
+                Err(e) => Ok(Err(format!("parse: {e}"))),
+                Ok(m) => self.with_tdeps_mut(|d, e| treasury::contract::instantiate(d, e, info, m).map_err(|e| e.to_string())),
+            },
+            "migrate" => match from_json::<treasury::msg::MigrateMsg>(text.as_bytes()) {
+                Err(e) => Ok(Err(format!("parse: {e}"))),
+                Ok(m) => self.with_tdeps_mut(|d, e| treasury::contract::migrate(d, e, m).map_err(|e| e.to_string())),
+            },
+            _ => match from_json::<treasury::msg::ExecuteMsg>(text.as_bytes()) {
+                Err(e) => Ok(Err(format!("parse: {e}"))),
+                Ok(m) => self.with_tdeps_mut(|d, e| treasury::contract::execute(d, e, info, m).map_err(|e| e.to_string())),
+            },
+        };
+        let res = match r {
+            Err(p) => Err((format!("panic: {p}"), true)),
+            Ok(Err(e)) => Err((e, false)),
+            Ok(Ok(resp)) => {
+                let mut c = 0usize;
+                // the treasury registers no reply handler: every message is fire-and-forget
+                let mut rr = Ok(());
+                for a in &resp.attributes {
+                    out.attrs.push((a.key.clone(), a.value.clone()));
+                }
+                for sm in resp.messages {
+                    if let Err(e) = self.dispatch(&sm.msg, &TxEnv::default(), &mut c, &mut out) {
+                        rr = Err((format!("submessage failed: {e}"), false));
+                        break;
+                    }
+                }
+                rr
+            }
+        };
+        for m in out.msgs.iter_mut() {
+            if m["k"] == "send" {
+                m["k"] = json!("t_send");
+            } else if m["k"] == "ibc" {
+                m["k"] = json!("t_ibc");
+            }
+        }
+        match res {
+            Ok(()) => {
+                out.ok = true;
+                if kind == "instantiate" {
+                    self.t_inst = true;
+                }
+            }
+            Err((e, p)) => {
+                let (names, txi) = (self.names.clone(), self.tx_index);
+                *self = snap;
+                self.names = names;
+                self.tx_index = txi;
+                out.ok = false;
+                out.err = e;
+                out.panic = p;
+                out.msgs.clear();
+            }
+        }
+        out
+    }
+
+    pub fn treasury_query(&self) -> Value {
+        let api = ChainApi { prefix: self.prefix.clone() };
+        let q = MockQuerier::default();
+        let env = self.env();
+        let r = catch_unwind(AssertUnwindSafe(|| {
+            let deps = Deps { storage: &self.tstore, api: &api, querier: QuerierWrapper::new(&q) };
+            match treasury::contract::query(deps, env, treasury::msg::QueryMsg::Config {}) {
+                Ok(b) => serde_json::from_slice::<Value>(b.as_slice()).unwrap_or(Value::Null),
+                Err(e) => json!({"__err": e.to_string()}),
+            }
+        }));
+        r.unwrap_or(json!({"__panic": true}))
     }
 
     // ---------------------------------------------------------------- environment events
